@@ -166,50 +166,68 @@ def c13(v, tier):
 
 # ------------------------------------------------------------------ C16
 def count_copies_download(addr, name, N_dup, family=socket.AF_INET, opts=()):
-    """returns (first_reply_copies, {blk: copies}, data, problems)"""
-    s = N._sock(family, timeout=1.0)
+    """returns (first_reply_copies, {blk: copies}, data, problems). Copies are attributed by content, so a copy
+    that arrives late (loaded machine) is still counted for its block; only the totals are judged."""
+    s = N._sock(family, timeout=1.5)
     tr = N.Transfer()
     problems = []
+    want = N_dup + 1
     try:
         s.sendto(N.enc_req(N.RRQ, name, options=opts), addr)
         k, f, peer = N.recv(s, tr)
         first_copies = 1
         if k == "OACK":
-            extra = quiet_after(s, 0.05)
+            extra = quiet_after(s, 0.06)
             first_copies += len(extra)
             s.sendto(N.enc_ack(0), peer)
-            k, f, src = N.recv(s, tr)
+        elif k == "DATA":
+            s_first = (k, f)
         data = bytearray()
         copies = {}
+        payloads = {}
         expected = 1
-        while k == "DATA":
-            blk = f["blk"]
-            n = 1
-            payload = f["data"]
-            # copies follow 1 ms apart
-            s.settimeout(0.05)
-            while True:
+        pending = [(k, f)] if k == "DATA" else []
+        done = False
+        last_progress = time.time()
+        while not done and time.time() - last_progress < 3.0:
+            if pending:
+                k2, f2 = pending.pop(0)
+            else:
+                s.settimeout(0.05 if copies.get(expected - 1, want) >= want or expected == 1 else 0.4)
                 try:
                     buf, src = s.recvfrom(70000)
+                    k2, f2 = N.dec(buf)
                 except socket.timeout:
-                    break
-                k2, f2 = N.dec(buf)
-                if k2 == "DATA" and f2["blk"] == blk and f2["data"] == payload:
-                    n += 1
+                    k2 = None
+            if k2 == "DATA":
+                last_progress = time.time()
+                blk = f2["blk"]
+                if blk in payloads and payloads[blk] == f2["data"]:
+                    copies[blk] += 1
+                elif blk == expected:
+                    payloads[blk] = f2["data"]
+                    copies[blk] = 1
+                    data += f2["data"]
                 else:
-                    problems.append(f"unexpected {k2} {f2.get('blk')} among the copies of DATA {blk}")
-            copies[blk] = n
-            if blk == expected:
-                data += payload
+                    problems.append(f"unexpected DATA {blk} while expecting {expected}")
+                continue
+            if k2 is not None:
+                problems.append(f"unexpected {k2} during the transfer")
+                continue
+            # quiet: acknowledge the newest complete block once all its copies had time to arrive
+            if expected in copies:
+                s.sendto(N.enc_ack(expected), peer)
+                last_progress = time.time()
+                if len(payloads[expected]) < 512:
+                    done = True
                 expected += 1
-            s.sendto(N.enc_ack(blk), peer)
-            if len(payload) < 512:
-                break
-            s.settimeout(1.0)
-            k, f, src = N.recv(s, tr)
-        tail = quiet_after(s, 0.1)
-        if tail:
-            problems.append(f"{len(tail)} datagram(s) after the final ACK")
+        # late copies of the final block and anything after the end
+        for src2, raw in quiet_after(s, 0.3):
+            k2, f2 = N.dec(raw)
+            if k2 == "DATA" and f2["blk"] in payloads:
+                copies[f2["blk"]] += 1
+            else:
+                problems.append(f"datagram {k2} after the final ACK")
         return first_copies, copies, bytes(data), problems
     finally:
         s.close()
